@@ -47,6 +47,11 @@ def matchesGen (u : Uni) (k : Key) (key : Int) (m : Nat) : Option Bool :=
   (execSs (ctx u noFuncs) VaxisModel.Gen.KeyBody.matchesBody
       { env := bind "k" (.struct (keyFields k)) [("key", .int key), ("modifiers", .ints [(m : Nat)])] }).retBool
 
+/-- `Key.Matches(key, ms...)` with the variadic list as given (`matchesGen` is the one-element case). -/
+def matchesGenL (u : Uni) (k : Key) (key : Int) (ms : List Nat) : Option Bool :=
+  (execSs (ctx u noFuncs) VaxisModel.Gen.KeyBody.matchesBody
+      { env := bind "k" (.struct (keyFields k)) [("key", .int key), ("modifiers", .ints (ms.map fun (m : Nat) => (m : Int)))] }).retBool
+
 /-- `Key.String()`. -/
 def keyStringGen (u : Uni) (k : Key) : Option Str :=
   (execSs (ctx u noFuncs) VaxisModel.Gen.KeyBody.stringBody { env := bind "k" (.struct (keyFields k)) [] }).retStr
